@@ -367,11 +367,18 @@ func c07(c *Ctx) {
 		}
 		if sh == shapeShrink {
 			w5 := core.MustPassAfter(w.Store, func(in ssa.Instruction) bool { return callReaches(in, m.revalDel) })
+			if w5 != nil && core.MustPassBefore(w.Store, func(in ssa.Instruction) bool { return callReaches(in, m.revalDel) }) == nil {
+				w5 = nil
+			}
 			r.Check(w5 == nil, "R5.pairing", m.key(w, "remove→nodeRemoved"), p.Pos(w.Store.Pos()),
 				"every path after the removal deregisters the node from the revalidation lists", "a removal from entries can return without deregistering the node: "+p.PathString(w5))
-			w6 := core.MustPassAfter(w.Store, func(in ssa.Instruction) bool { return callReaches(in, m.ipRemovers) })
+			isRelease := func(in ssa.Instruction) bool { return callReaches(in, m.ipRemovers) }
+			w6 := core.MustPassAfter(w.Store, isRelease)
+			if w6 != nil && core.MustPassBefore(w.Store, isRelease) == nil {
+				w6 = nil // released just before the entry is cut out (same path, same critical section)
+			}
 			r.Check(w6 == nil, "R5.pairing", m.key(w, "remove→removeIP"), p.Pos(w.Store.Pos()),
-				"every path after the removal releases the node's IP reservation", "a removal from entries can return without releasing the IP reservation: "+p.PathString(w6))
+				"every path through the removal releases the node's IP reservation", "a removal from entries can return without releasing the IP reservation: "+p.PathString(w6))
 		}
 	}
 	// record replacement must re-check the IP limits (or leave the IP unchanged)
